@@ -30,7 +30,7 @@ class Call(Expression):
 
         _ParseFunction = Code('_ParseFunction')
 
-        if flags.uses_context and not self.func.is_local:
+        if flags.uses_context and not self.func.is_local and not self.func.is_super:
             resolved_func = f'_ctx.{self.func.resolved}'
         else:
             resolved_func = self.func.resolved
